@@ -66,12 +66,12 @@ def one(ctx, pts, c, slopes, kind, opts, family):
         except Exception:
             ctx.tag('oracle-raised')
     # exact-Q model of the elbow theorem: criterion computed in Q from the coordinates
-    if kind in ('curvature', 'menger') and n <= 120:
+    if (kind in ('curvature', 'menger', 'kneedle') and n <= 120) or (kind == 'dfdt' and n <= 40):
         d = ctx.get_driver()
         out = d.call('elbowQ', [kind, core.rats(pts[:, 0]), core.rats(pts[:, 1])])
         ctx.corr_checked += 1
-        if int(out[0]) != c:
-            ctx.fail('correspondence', f'exact-Q {kind} detector on the elbow', site, case, dict(model=int(out[0]), corner=c))
+        if out[0] != str(c):
+            ctx.fail('correspondence', f'exact-Q {kind} detector on the elbow', site, case, dict(model=out[0], corner=c))
     ctx.count(family + ':' + kind, n=n, nontrivial_key=(kind, str(sorted(opts.items())), pts.tobytes()), sample=dict(detector=kind, options=opts, n=n, corner=c, slopes_eighths=list(slopes), knee=real))
 
 
